@@ -481,6 +481,29 @@ def run(chk: common.Check) -> None:
         if msgs:
             oracle_fail.append(({'real_run': r['spec']}, msgs, None))
 
+    # several traces with open prompts at the same time (one thread's first prompt is withheld until nothing else moves), every
+    # genuine answer surrounded by decoys incl. this prompt's number addressed to every other live trace; real trace machinery in-process
+    from . import _trace
+    cspecs = []
+    for s in _trace.gen_specs(chk, 0, 24 if chk.tier == 'quick' else 240, with_modules=False):
+        if not s['trace_threads']:
+            continue
+        s = dict(s, decoys=True, want_reference=False, want_recorder=False)
+        if len(cspecs) % 2 == 0:
+            s['policy'] = {'kind': 'withhold', 'command': 'next'}
+        cspecs.append(s)
+    for r in _trace.run_specs(cspecs):
+        sp = r['spec']
+        if 'harness_error' in r:
+            if not r['harness_error'].startswith('SKIPPED'):
+                oracle_fail.append(({'script': sp['source'], 'policy': sp['policy']}, [f'the traced run did not complete: {r["harness_error"][:200]}'], None))
+            continue
+        chk.cov.case(('inproc', sp['source'], repr(sp['policy'])))
+        chk.cov.count('kinds', 'concurrent-traces-with-decoys')
+        msgs = _trace.commands_oracle(r['traced'])
+        if msgs:
+            oracle_fail.append(({'script': sp['source'], 'policy': sp['policy'], 'decoys': True}, msgs, None))
+
     for ops, msgs, out in oracle_fail[:5]:
         chk.violation(f'C07 oracle: {msgs[0]}', {'ops': ops, 'oracle_messages': msgs, 'implementation': out})
     broken = common.proof_broken(chk)
